@@ -53,3 +53,22 @@ Print Assumptions C13_failure_reexecuted.
 Theorem C13_unrepaired_binding_refuted : ~ outputs_complete_or_error false.
 Proof. exact lenient_binding_refuted. Qed.
 Print Assumptions C13_unrepaired_binding_refuted.
+
+(* the outcome of a shell body is a function of the command's return code (Native.execute: any
+   non-zero code, negative = killed by a signal included) and of the declared output files: for
+   every return code other than 0 the stored result is errored, the failure is reported and a
+   later submission under the same root executes again; code 0 with every mandatory output file
+   present is a success *)
+Theorem C13_shell_nonzero_never_cached_as_success :
+  forall (w : world) (cfg : config) (c : ident) (s : state) (rr : bool)
+         (rc : Z) (files : list (bool * bool)) (v : value),
+    body w c (clock s) (execs s c) = shell_outcome rc files v ->
+    early_exit cfg rr (st s) c = None ->
+    let '(s1, evs, r) := submit w cfg rr (Leaf c) s in
+    (rc <> 0%Z ->
+       r = Err /\ st s1 (root cfg) c = Complete Err /\ last_run c evs = Some Err /\
+       forall w2 cfg2 s2 rr2, root cfg2 = root cfg -> st s2 (root cfg) c = Complete Err ->
+         let '(s3, evs3, r3) := run_job w2 cfg2 rr2 (Leaf c) s2 in last_run c evs3 = Some r3) /\
+    (rc = 0%Z -> files_present files = true -> r = Ok v /\ st s1 (root cfg) c = Complete (Ok v)).
+Proof. exact shell_nonzero_never_cached_as_success. Qed.
+Print Assumptions C13_shell_nonzero_never_cached_as_success.
